@@ -104,7 +104,7 @@ def run(ctx):
 
 
 def _run(ctx, current, mon):
-    nspec = ctx.pick(8, 96)
+    nspec = ctx.pick(8, 208)
     classes = ["constant", "varying", "equal", "pairwise-equal", "near-degenerate:1e-3", "near-degenerate:1e-4",
                "near-degenerate:1e-6", "near-degenerate:1e-8"]
     for isp in range(nspec):
